@@ -714,6 +714,45 @@ theorem initItem_xover_dirty {g : Nat} {root : Ty} {top : Bool} {obj : Init} {pa
         simp [hx p0 (by simp) s] at this
       · cases hr
 
+theorem touched_switch (e : Option Expr) {m k : Nat} (cs : List Init) (s : List Nat) (hm : m ≠ k) :
+    touched (.union e (some m) cs) (k :: s) = true := by
+  rw [touched]; simp [hm]
+
+theorem switchesUnion_switch (e : Option Expr) {m k : Nat} (cs : List Init) (s : List Nat) (hm : m ≠ k) :
+    switchesUnion (.union e (some m) cs) (k :: s) = true := by
+  rw [switchesUnion]; simp [hm]
+
+/-- an initializer for another member of the union that is the current object than the one initialised so far: the run enters
+    the region `over` (6.7.9p19 makes the new member the initialised one, from zero; `touched` / `switchesUnion` see it) -/
+theorem initItem_switch_dirty {g : Nat} {root : Ty} {top : Bool} {e : Option Expr} {m k : Nat} {cs : List Init}
+    {paths : List (List Nat)} {toks : List ITok} {fl : Flags} {res : Result} (hne : paths ≠ []) (hm : m ≠ k)
+    (hx : ∀ q ∈ paths, ∃ s, q = k :: s)
+    (hr : initItem g root top (.union e (some m) cs) paths toks fl = .ok res) : res.fl.clean = false := by
+  cases hc : res.fl.clean with
+  | false => rfl
+  | true =>
+    exfalso
+    unfold initItem initItemWith at hr
+    split at hr
+    · exact hne rfl
+    · rename_i p0 rest
+      obtain ⟨s0, hp0⟩ := hx p0 (by simp)
+      subst hp0
+      split at hr
+      · obtain ⟨_, _, hr⟩ := bind_eq_ok hr
+        obtain ⟨_, _, hr⟩ := bind_eq_ok hr
+        obtain ⟨_, _, hr⟩ := bind_eq_ok hr
+        have := (Flags.clean_mk (Flags.clean_join (Flags.clean_join (initList_clean _ _ _ _ _ _ _ _ _ hr hc)).1).2).1
+        simp [touched_switch e cs s0 hm] at this
+      · rename_i tok r
+        obtain ⟨targets, ht, hr⟩ := bind_eq_ok hr
+        obtain ⟨_, _, hr⟩ := bind_eq_ok hr
+        obtain ⟨q0, ts, hq0, _, rfl⟩ := mapM_cons_ok ht
+        obtain ⟨s, rfl⟩ := descend_prefix _ _ _ _ _ _ hq0
+        have := (Flags.clean_mk (Flags.clean_join (initList_clean _ _ _ _ _ _ _ _ _ hr hc)).2).1
+        simp [switchesUnion_switch e cs (s0 ++ s) hm] at this
+      · cases hr
+
 mutual
   theorem findMember_ne_nil : ∀ (t : Ty) (n : String), findMember t n ≠ some []
     | .struct ms _ _, n => by rw [findMember]; exact findMemberMs_ne_nil ms n 0
